@@ -1,6 +1,6 @@
 package main
 
-// Shared by C12 and C02 (harness/c02/main has symlinks to the shared_*.go / cql.go files
+// Shared by C12 and C02 (harness/c02/main has relative symlinks to the shared_*.go files
 // of harness/c12/main): enumeration of CQL type trees and their translation to gocql.TypeInfo.
 
 import (
